@@ -58,7 +58,7 @@ package shimagent
 //@   ensures [locked-refuses] old(s.locked) ==> (result == errAgentLocked && calls(Agent.RemoveAll) == old(calls(Agent.RemoveAll)) &&
 //@     s.certs == old(s.certs) && s.upstreamSSHCACertCache == old(s.upstreamSSHCACertCache))
 //@   ensures [both-tables-emptied] !old(s.locked) ==> (fresh(s.certs) && fresh(s.upstreamSSHCACertCache) &&
-//@     forall(h#hashcode, true, !(h in dom(s.certs)) && !(h in dom(s.upstreamSSHCACertCache))) &&
+//@     mapdom(s.certs) == nokeys(s.certs) && mapdom(s.upstreamSSHCACertCache) == nokeys(s.upstreamSSHCACertCache) &&
 //@     calls(Agent.RemoveAll) == old(calls(Agent.RemoveAll)) + 1 && result == ret(Agent.RemoveAll, old(calls(Agent.RemoveAll)), 0))
 
 //@ func (*Server).Extension(s, extensionType, contents)
@@ -119,19 +119,19 @@ package shimagent
 //@   ensures wheld(s) && inv(s)
 //@   ensures [one-underlying-remove] calls(Agent.Remove) == r0 + 1 && arg(Agent.Remove, r0, 1) == key && arg(Agent.Remove, r0, 0) == s.agent
 //@   ensures [in-memory-entry-gone] !(keyhash(key) in dom(s.certs))
-//@   ensures [other-entries-kept] forall(h#hashcode, h != keyhash(key), ((h in dom(s.certs)) <==> old(h in dom(s.certs))) && s.certs[h] == old(s.certs[h]))
+//@   ensures [other-entries-kept] mapdom(s.certs) == without(old(mapdom(s.certs)), keyhash(key)) && mapval(s.certs) == old(mapval(s.certs))
 //@   ensures [success-iff-something-was-removed] result == nil <==> (old(keyhash(key) in dom(s.certs)) || ret(Agent.Remove, r0, 0) == nil)
 //@   ensures [error-is-the-underlying-one] result != nil ==> result == ret(Agent.Remove, r0, 0)
 //@   ensures [cache-entry-dropped] (s.noUpstreamSSHCACert && result == nil) ==> !(keyhash(key) in dom(s.upstreamSSHCACertCache))
-//@   ensures [cache-otherwise-kept] forall(h#hashcode, h != keyhash(key) || !s.noUpstreamSSHCACert || result != nil,
-//@     (h in dom(s.upstreamSSHCACertCache)) <==> old(h in dom(s.upstreamSSHCACertCache)))
+//@   ensures [cache-otherwise-kept] mapdom(s.upstreamSSHCACertCache) == ((s.noUpstreamSSHCACert && result == nil) ?
+//@     without(old(mapdom(s.upstreamSSHCACertCache)), keyhash(key)) : old(mapdom(s.upstreamSSHCACertCache)))
 
 //@ func (*Server).Remove(s, key)
 //@   requires s != nil && inv(s) && unheld(s)
 //@   modifies mstate(addrof(s.mu)), mapof(s.certs), mapof(s.upstreamSSHCACertCache)
 //@   ensures unheld(s) && inv(s)
 //@   ensures [locked-refuses] old(s.locked) ==> (result == errAgentLocked && calls(remove) == old(calls(remove)) && calls(Agent.Remove) == old(calls(Agent.Remove)) &&
-//@     forall(h#hashcode, true, ((h in dom(s.certs)) <==> old(h in dom(s.certs))) && ((h in dom(s.upstreamSSHCACertCache)) <==> old(h in dom(s.upstreamSSHCACertCache)))))
+//@     mapdom(s.certs) == old(mapdom(s.certs)) && mapval(s.certs) == old(mapval(s.certs)) && mapdom(s.upstreamSSHCACertCache) == old(mapdom(s.upstreamSSHCACertCache)))
 //@   ensures [nil-key-refused] (!old(s.locked) && key == nil) ==> (result != nil && calls(remove) == old(calls(remove)))
 //@   ensures [removal-delegated] (!old(s.locked) && key != nil) ==> (calls(remove) == old(calls(remove)) + 1 && arg(remove, old(calls(remove)), 1) == key &&
 //@     arg(remove, old(calls(remove)), 0) == s && result == ret(remove, old(calls(remove)), 0))
@@ -218,12 +218,12 @@ package shimagent
 //@   let c0 = old(calls(CastSSHPublicKeyToCertificate))
 //@   ensures unheld(s) && inv(s)
 //@   ensures [locked-refuses] old(s.locked) ==> (result == errAgentLocked && calls(Agent.List) == l0 &&
-//@     forall(h#hashcode, true, ((h in dom(s.certs)) <==> old(h in dom(s.certs))) && s.certs[h] == old(s.certs[h])))
+//@     mapdom(s.certs) == old(mapdom(s.certs)) && mapval(s.certs) == old(mapval(s.certs)))
 //@   ensures [nil-key-refused] (!old(s.locked) && key == nil) ==> (result != nil && calls(Agent.List) == l0)
 //@   ensures [adding-again-is-a-no-op] (!old(s.locked) && key != nil && old(keyhash(key) in dom(s.certs))) ==> (result == nil && calls(Agent.List) == l0 &&
-//@     forall(h#hashcode, true, ((h in dom(s.certs)) <==> old(h in dom(s.certs))) && s.certs[h] == old(s.certs[h])))
+//@     mapdom(s.certs) == old(mapdom(s.certs)) && mapval(s.certs) == old(mapval(s.certs)))
 //@   ensures [only-certificates] (!old(s.locked) && key != nil && !old(keyhash(key) in dom(s.certs)) && !certBlob(blobid(key))) ==> (result != nil && calls(Agent.List) == l0)
-//@   ensures [failure-changes-nothing] result != nil ==> forall(h#hashcode, true, ((h in dom(s.certs)) <==> old(h in dom(s.certs))) && s.certs[h] == old(s.certs[h]))
+//@   ensures [failure-changes-nothing] result != nil ==> (mapdom(s.certs) == old(mapdom(s.certs)) && mapval(s.certs) == old(mapval(s.certs)))
 //@   ensures [accepted-only-with-a-listed-key] (!old(s.locked) && key != nil && !old(keyhash(key) in dom(s.certs)) && result == nil) ==>
 //@     (calls(Agent.List) == l0 + 1 && ret(Agent.List, l0, 1) == nil && calls(CastSSHPublicKeyToCertificate) == c0 + 1 && ret(CastSSHPublicKeyToCertificate, c0, 1) == nil &&
 //@      exists(j, 0 <= j && j < len(ret(Agent.List, l0, 0)), ret(Agent.List, l0, 0)[j] != nil &&
@@ -231,7 +231,8 @@ package shimagent
 //@   ensures [stored-under-its-own-hash] (!old(s.locked) && key != nil && !old(keyhash(key) in dom(s.certs)) && result == nil) ==>
 //@     ((keyhash(key) in dom(s.certs)) && s.certs[keyhash(key)] != nil && fresh(s.certs[keyhash(key)]) &&
 //@      s.certs[keyhash(key)].Certificate == ret(CastSSHPublicKeyToCertificate, c0, 0) &&
-//@      forall(h#hashcode, h != keyhash(key), ((h in dom(s.certs)) <==> old(h in dom(s.certs))) && s.certs[h] == old(s.certs[h])))
+//@      mapdom(s.certs) == with(old(mapdom(s.certs)), keyhash(key), true) &&
+//@      mapval(s.certs) == with(old(mapval(s.certs)), keyhash(key), s.certs[keyhash(key)]))
 //@   ensures [listing-failure-surfaces] (!old(s.locked) && key != nil && !old(keyhash(key) in dom(s.certs)) && calls(Agent.List) == l0 + 1 && ret(Agent.List, l0, 1) != nil) ==> result == ret(Agent.List, l0, 1)
 //@   ensures [unlisted-key-is-refused] (!old(s.locked) && key != nil && !old(keyhash(key) in dom(s.certs)) && calls(Agent.List) == l0 + 1 && ret(Agent.List, l0, 1) == nil &&
 //@     forall(j, 0 <= j && j < len(ret(Agent.List, l0, 0)), blobid(iface(ret(Agent.List, l0, 0)[j])) != blobid(ret(CastSSHPublicKeyToCertificate, c0, 0).Key))) ==> result == errAgentNotFoundKey
@@ -241,4 +242,4 @@ package shimagent
 //@       keyHash == keyhash(key) && !old(keyhash(key) in dom(s.certs)) && wheld(s) && inv(s)
 //@     invariant forall(j, 0 <= j && j <= rangeindex, blobid(iface(agentKeys[j])) != blobid(cert.Key))
 //@     invariant forall(j, 0 <= j && j < len(agentKeys), agentKeys[j] != nil) && cert.Key != nil
-//@     invariant forall(h#hashcode, true, ((h in dom(s.certs)) <==> old(h in dom(s.certs))) && s.certs[h] == old(s.certs[h]))
+//@     invariant mapdom(s.certs) == old(mapdom(s.certs)) && mapval(s.certs) == old(mapval(s.certs))
